@@ -49,6 +49,9 @@ type Case struct {
 	GapMs      int  `json:"gap_ms"`       // >0: burst (300 ms) — silence of GapMs — tail: after a stall the next token lies in the future
 	UnlimMs    int  `json:"unlimited_ms"` // >0: the paced profile is combined with an unlimited part of this length (before it if UnlimFirst)
 	UnlimFirst bool `json:"unlimited_first,omitempty"`
+	// OnceMid: the profile is [paced, once 1, unlimited, paced again]: one single request stands
+	// between the first paced part and the unlimited part
+	OnceMid bool `json:"single_request_before_the_unlimited_part,omitempty"`
 	JitterMs   int  `json:"jitter_ms"`
 	// PerInstance: the pool is configured with rps-per-instance (the engine asks the factory once
 	// per instance); discard_overflow applies to it in the same way
@@ -73,6 +76,7 @@ func runCase(res *vkit.Result, c Case) {
 	d := time.Duration(c.DurMs) * time.Millisecond
 	var inner core.Schedule
 	var lead time.Duration
+	known := 0 // requests of the parts whose size is known, in a profile whose total is not
 	if c.UnlimOnly {
 		inner = schedule.NewUnlimited(d)
 	} else if c.Once > 0 && c.From > 0 {
@@ -85,8 +89,13 @@ func runCase(res *vkit.Result, c Case) {
 	} else if c.Lead == "pause" {
 		lead = time.Duration(c.LeadMs) * time.Millisecond
 		inner = schedule.NewComposite(schedule.NewConst(0, lead), schedule.NewConst(c.From, d))
+	} else if c.UnlimMs > 0 && c.OnceMid {
+		paced, tail := schedule.NewConst(c.From, d), schedule.NewConst(c.From, d/2)
+		known = paced.Left() + 1 + tail.Left()
+		inner = schedule.NewComposite(paced, schedule.NewOnce(1), schedule.NewUnlimited(time.Duration(c.UnlimMs)*time.Millisecond), tail)
 	} else if c.UnlimMs > 0 {
 		paced := schedule.NewConst(c.From, d)
+		known = paced.Left()
 		un := schedule.NewUnlimited(time.Duration(c.UnlimMs) * time.Millisecond)
 		if c.UnlimFirst {
 			inner = schedule.NewComposite(un, paced)
@@ -231,6 +240,9 @@ func runCase(res *vkit.Result, c Case) {
 	if fired+discarded != tokens {
 		fail("accounting", "%d tokens but %d fired + %d discarded", tokens, fired, discarded)
 	}
+	if known > 0 && fired+discarded < known {
+		fail("known-part-not-fired", "the parts of known size hold %d requests, only %d were fired and %d discarded: the run ended %.2f s after its start, before the profile did", known, fired, discarded, run.Seconds())
+	}
 	if !c.Discard && fired != tokens {
 		fail("not-fired", "discard off: %d tokens, %d fired", tokens, fired)
 	}
@@ -276,6 +288,8 @@ func base() []Case {
 		// tokens must still wait for their time
 		{Name: "paced-plus-unlimited", Instances: 2, From: 20, DurMs: 1000, Discard: true, ShotMs: 1, StallAt: -1, UnlimMs: 150, UnlimFirst: true},
 		{Name: "paced-plus-unlimited", Instances: 1, From: 10, DurMs: 1200, Discard: false, ShotMs: 1, StallAt: -1, UnlimMs: 100},
+		{Name: "paced-plus-unlimited", Instances: 1, From: 20, DurMs: 500, Discard: false, ShotMs: 1, StallAt: -1, UnlimMs: 300, OnceMid: true},
+		{Name: "paced-plus-unlimited", Instances: 3, From: 20, DurMs: 500, Discard: true, ShotMs: 1, StallAt: -1, UnlimMs: 300, OnceMid: true},
 		// the same with a stall during the paced part: the profile's length is unknown, its paced
 		// tokens are bound to the 2 s window all the same
 		{Name: "stall-in-paced-plus-unlimited", Instances: 1, From: 20, DurMs: 3500, Discard: true, ShotMs: 1, StallAt: 3, StallMs: 2600, UnlimMs: 60},
